@@ -42,8 +42,21 @@ fn run(ctx: &mut Ctx) {
             let names: Vec<String> = { let mut v: Vec<String> = f.a.labels.iter().filter(|(_, (_, e))| *e).map(|(n, _)| n.clone()).collect(); v.sort(); v.dedup(); v };
             // the definitions sit at x7000.., or start at address 0 / 1 (0 is also the placeholder address of an external) or high in memory
             let dorig: u16 = *rng.pick(&[0x7000u16, 0x7000, 0x0000, 0x0000, 0x0001, 0xFD00]);
+            // one statement may carry several of the names (two externals resolving to the same address)
             let mut def_src = format!(".orig x{dorig:04X}\n");
-            for (i, nme) in names.iter().enumerate() { def_src.push_str(&format!("{} .fill x{:04X}\n", recase(rng, nme), 0x1111 * (i as u16 + 1))); }
+            let mut addr_of: std::collections::BTreeMap<String, u16> = std::collections::BTreeMap::new();
+            let mut next = dorig; let mut i = 0;
+            while i < names.len() {
+                let mut group = vec![names[i].clone()]; i += 1;
+                while i < names.len() && rng.chance(1, 3) { group.push(names[i].clone()); i += 1; }
+                for g in &group { addr_of.insert(g.clone(), next); def_src.push_str(&format!("{}\n", recase(rng, g))); }
+                def_src.push_str(&format!(".fill x{:04X}\n", 0x1111u16.wrapping_mul(i as u16)));
+                next += 1;
+            }
+            // the defining file may in turn use a label of this file (mutual references): then it keeps its own label table even without debug symbols
+            let mutual: Option<String> = f.a.labels.iter().find(|(n, (_, e))| !*e && is_label_name(n)).map(|(n, _)| n.clone()).filter(|_| rng.bool());
+            let mut def_mutual = def_src.clone();
+            if let Some(m) = &mutual { def_mutual.push_str(&format!(".fill {}\n.end\n.external {}\n", recase(rng, m), recase(rng, m))); } else { def_mutual.push_str(".end\n"); }
             def_src.push_str(".end\n");
             for debug in [true, false] {
                 ctx.eval();
@@ -70,13 +83,24 @@ fn run(ctx: &mut Ctx) {
                     let img = crate::asmutil::image_of(&linked);
                     let labels: std::collections::BTreeMap<String, u16> = linked.symbol_table().map(|s| s.label_iter().map(|(n, a, _)| (n.to_uppercase(), a)).collect()).unwrap_or_default();
                     let mut bad = None;
-                    for (a, l) in &f.a.relocs { let want = dorig + names.iter().position(|n| n == l).unwrap() as u16; if img.get(a) != Some(&Some(want)) || labels.get(l) != Some(&want) { bad = Some((*a, l.clone(), want, img.get(a).copied())); break; } }
+                    for (a, l) in &f.a.relocs { let want = addr_of[l]; if img.get(a) != Some(&Some(want)) || labels.get(l) != Some(&want) { bad = Some((*a, l.clone(), want, img.get(a).copied())); break; } }
                     if let Some((a, l, want, got)) = bad {
                         ctx.violation(&format!("linked-word-not-label-address:{tag}:{placement}"), format!("after linking (order {order}) the .fill {l} word at x{a:04X} is {got:X?}, expected x{want:04X}"), case()); continue;
                     }
                     match sim.load_obj_file(&linked) {
-                        Ok(()) => { if f.a.relocs.iter().all(|(a, l)| sim.mem[*a].get() == dorig + names.iter().position(|n| n == l).unwrap() as u16) { ctx.count(&format!("linked-and-loaded.{tag}.order{order}")); if dorig == 0 { ctx.count("linked-and-loaded.definition-at-x0000"); } } else { ctx.violation("loaded-word-differs", "memory after load differs from the linked image", case()); } }
+                        Ok(()) => { if f.a.relocs.iter().all(|(a, l)| sim.mem[*a].get() == addr_of[l]) { ctx.count(&format!("linked-and-loaded.{tag}.order{order}")); if dorig == 0 { ctx.count("linked-and-loaded.definition-at-x0000"); } if { let mut v: Vec<u16> = f.a.relocs.values().map(|n| addr_of[n]).collect(); v.sort(); v.dedup(); v.len() } < { let mut v: Vec<&String> = f.a.relocs.values().collect(); v.sort(); v.dedup(); v.len() } { ctx.count("linked-and-loaded.two-names-one-address"); } } else { ctx.violation("loaded-word-differs", "memory after load differs from the linked image", case()); } }
                         Err(e) => ctx.violation(&format!("resolved-file-does-not-load:{tag}"), format!("linked file fails to load: {e:?}"), case()),
+                    }
+                }
+                // (d) mutual references: the defining file, assembled without debug symbols, itself declares a label of this file
+                if mutual.is_some() {
+                    if let Ok(Ok(def_m)) = crate::asmutil::asm(&def_mutual, false) {
+                        for order in 0..2 {
+                            let Some(Ok(l)) = ctx.no_panic("link", case, || if order == 0 { ObjectFile::link(obj.clone(), def_m.clone()) } else { ObjectFile::link(def_m.clone(), obj.clone()) }) else { continue };
+                            let img = crate::asmutil::image_of(&l);
+                            if let Some((a, nm)) = f.a.relocs.iter().find(|(a, nm)| img.get(*a) != Some(&Some(addr_of[*nm]))) { ctx.violation(&format!("mutual-link-word-not-label-address:{tag}"), format!("order {order}: the .fill {nm} word at x{a:04X} is {:X?}, expected x{:04X}", img.get(a), addr_of[nm]), case().set("definer", def_mutual.as_str())); break; }
+                            match sim.load_obj_file(&l) { Ok(()) => ctx.count("mutual.linked-and-loaded"), Err(e) => { ctx.violation(&format!("mutual-link-does-not-load:{tag}"), format!("order {order}: two files that define each other's externals were linked, but loading fails: {e:?}"), case().set("definer", def_mutual.as_str())); break; } }
+                        }
                     }
                 }
                 // (c) partner without label table: must not load silently
@@ -85,7 +109,7 @@ fn run(ctx: &mut Ctx) {
                         match sim.load_obj_file(&l) {
                             Err(SimErr::UnresolvedExternal(_)) => ctx.count(&format!("partner-without-labels-refused.{tag}")),
                             Ok(()) => {
-                                let resolved = f.a.relocs.iter().all(|(a, l)| sim.mem[*a].get() == dorig + names.iter().position(|n| n == l).unwrap() as u16);
+                                let resolved = f.a.relocs.iter().all(|(a, l)| sim.mem[*a].get() == addr_of[l]);
                                 if resolved { ctx.count("partner-without-labels-resolved"); } else { ctx.violation(&format!("placeholder-loads-silently-after-link:{tag}"), "linking with a file without label table left the placeholder and loading succeeded", case()); }
                             }
                             Err(e) => ctx.violation("load-wrong-error", format!("{e:?}"), case()),
@@ -106,5 +130,6 @@ fn guard(m: &Merged, _t: Tier) -> Vec<String> {
         need(m, &mut out, &format!("partner-without-labels-refused.{tag}"), 20);
     }
     need(m, &mut out, "linked-and-loaded.definition-at-x0000", 20);
+    need(m, &mut out, "mutual.linked-and-loaded", 20); need(m, &mut out, "linked-and-loaded.two-names-one-address", 20);
     out
 }
